@@ -14,7 +14,9 @@
 //!  * every call that returns `Ok` returns only after a cluster state containing every node that had joined BEFORE the
 //!    call was made is visible through `Session::get_cluster_state()`.
 //! `Err` answers (the fetch error handed to the requester) are answers; they are counted, not judged.
-//! A call that has not returned after 30 s on a machine this loaded is reported as `e2e-skip` (environment), not judged.
+//!  * every call is ANSWERED (Ok or Err) within 60 s - the mock cluster is healthy whenever calls are awaited (reset
+//!    connections are re-established at once, a stopped cluster is restarted before the second half of the calls is
+//!    awaited, and while it is down the producer answers with the error); an unanswered call is a FAILURE.
 use super::common::*;
 use crate::mockcluster::*;
 use crate::mocknode::ShardMode;
@@ -108,8 +110,16 @@ pub fn run(words: &[&str], ctx: &mut Ctx) -> String {
                     }
                     restarted = true;
                 }
-                match tokio::time::timeout(Duration::from_secs(30), task).await {
-                    Err(_) => return format!("e2e-skip refresh-not-answered-in-30s round={} task={}", round, t),
+                match tokio::time::timeout(Duration::from_secs(60), task).await {
+                    Err(_) => {
+                        // every node of the mock cluster is up (a stopped cluster was restarted above): the request
+                        // must be answered - Ok or Err - and it was not, 60 s after it was made
+                        ctx.fail(format!(
+                            "e2e refresh: round {} call {}: refresh_metadata() was not answered within 60 s although every node of the mock cluster is up (kill={})",
+                            round, t, kill
+                        ));
+                        return format!("refresh-unanswered round={} task={}", round, t);
+                    }
                     Ok(Err(join)) => {
                         if join.is_panic() {
                             ctx.fail(format!(
